@@ -38,7 +38,7 @@ func VerifPoisonPool(seed int) {
 // VerifResetTimeZones empties the time-zone cache.
 func VerifResetTimeZones() {
 	mutexTimeZones.Lock()
-	cacheTimeZone = map[int32]*time.Location{}
+	cacheTimeZone = map[zoneKey]*time.Location{}
 	mutexTimeZones.Unlock()
 }
 
